@@ -50,6 +50,9 @@ func (c *Ctx) expandFact(pk *pkgT) func(cf *cfgx.Func, fa cfgx.Fact) []cfgx.Fact
 			c.sums = &summaries{cache: map[summaryKey][]cfgx.Fact{}, busy: map[*types.Func]bool{}}
 		}
 		info := pk.TypesInfo
+		if flagFacts := c.flagImplies(info, cf, fa); flagFacts != nil {
+			return flagFacts
+		}
 		call, kind, ok := c.factCall(info, cf, fa)
 		if !ok {
 			return nil
@@ -502,5 +505,89 @@ func (c *Ctx) resultObjs(hpk *pkgT, fd *ast.FuncDecl, kind retKind) []types.Obje
 		}
 		return true
 	})
+	return out
+}
+
+// flagImplies: a boolean local that starts false and is set to true at a few places is a
+// flag; "the flag is true" implies whatever holds at EVERY place that sets it
+// (`errorInBody = true` only in the cases guarded by `d.BodyCoords.IsSet()`).
+func (c *Ctx) flagImplies(info *types.Info, cf *cfgx.Func, fa cfgx.Fact) []cfgx.Fact {
+	id, ok := ast.Unparen(fa.Expr).(*ast.Ident)
+	if !ok || !fa.Truth {
+		return nil
+	}
+	obj, ok := info.ObjectOf(id).(*types.Var)
+	if !ok || obj.IsField() {
+		return nil
+	}
+	if b, ok := obj.Type().Underlying().(*types.Basic); !ok || b.Info()&types.IsBoolean == 0 {
+		return nil
+	}
+	if cf.DefOf(obj) != nil {
+		return nil // a single-assignment boolean is decomposed by cfgx itself
+	}
+	var setters []*ast.AssignStmt
+	okShape := true
+	inits := 0
+	ast.Inspect(cf.Body, func(n ast.Node) bool {
+		switch x := n.(type) {
+		case *ast.AssignStmt:
+			for i, l := range x.Lhs {
+				lid, isId := l.(*ast.Ident)
+				if !isId || info.ObjectOf(lid) != types.Object(obj) {
+					continue
+				}
+				if len(x.Lhs) != len(x.Rhs) {
+					okShape = false
+					continue
+				}
+				tv, has := info.Types[x.Rhs[i]]
+				switch {
+				case has && tv.Value != nil && tv.Value.String() == "true":
+					setters = append(setters, x)
+				case has && tv.Value != nil && tv.Value.String() == "false" && x.Tok == token.DEFINE:
+					inits++
+				default:
+					okShape = false
+				}
+			}
+		case *ast.UnaryExpr:
+			if x.Op == token.AND {
+				if aid, isId := x.X.(*ast.Ident); isId && info.ObjectOf(aid) == types.Object(obj) {
+					okShape = false
+				}
+			}
+		}
+		return true
+	})
+	if !okShape || len(setters) == 0 {
+		return nil
+	}
+	var acc []cfgx.Fact
+	for i, st := range setters {
+		here := cf.FactsAt(st)
+		if i == 0 {
+			acc = here
+			continue
+		}
+		var keep []cfgx.Fact
+		for _, a := range acc {
+			for _, b := range here {
+				if a.Truth == b.Truth && cfgx.SameExpr(info, a.Expr, b.Expr) {
+					keep = append(keep, a)
+					break
+				}
+			}
+		}
+		acc = keep
+	}
+	// never hand the flag itself back (no progress)
+	var out []cfgx.Fact
+	for _, a := range acc {
+		if aid, isId := ast.Unparen(a.Expr).(*ast.Ident); isId && info.ObjectOf(aid) == types.Object(obj) {
+			continue
+		}
+		out = append(out, a)
+	}
 	return out
 }
